@@ -1,5 +1,7 @@
 //! Line intersection parameters.
 
+use az::SaturatingAs;
+
 use crate::{
     geometry::{Point, PointExt},
     primitives::{
@@ -70,7 +72,8 @@ impl<'a> IntersectionParams<'a> {
     /// Check whether two almost-colinear lines are intersecting in the wrong place due to numerical
     /// inaccuracies.
     pub fn nearly_colinear_has_error(&self) -> bool {
-        self.denominator.pow(2) < self.line1.delta().dot_product(self.line2.delta()).abs()
+        i64::from(self.denominator).pow(2)
+            < i64::from(self.line1.delta().dot_product(self.line2.delta()).abs())
     }
 
     /// Compute the intersection point.
@@ -97,13 +100,12 @@ impl<'a> IntersectionParams<'a> {
         // If we got here, line segments intersect. Compute intersection point using method similar
         // to that described here: http://paulbourke.net/geometry/pointlineplane/#i2l
 
-        let origin_distances = Point::new(line1.origin_distance, line2.origin_distance);
+        // 64 bit integers are used to prevent overflows for long lines.
+        let x_numerator = i64::from(line1.origin_distance) * i64::from(line2.normal_vector.y)
+            - i64::from(line2.origin_distance) * i64::from(line1.normal_vector.y);
 
-        let x_numerator =
-            origin_distances.determinant(Point::new(line1.normal_vector.y, line2.normal_vector.y));
-
-        let y_numerator =
-            Point::new(line1.normal_vector.x, line2.normal_vector.x).determinant(origin_distances);
+        let y_numerator = i64::from(line1.normal_vector.x) * i64::from(line2.origin_distance)
+            - i64::from(line2.normal_vector.x) * i64::from(line1.origin_distance);
 
         Intersection::Point {
             point: Point::new(
@@ -119,14 +121,16 @@ impl<'a> IntersectionParams<'a> {
 ///
 /// Ties are always rounded up (towards positive infinity), independent of the sign of the
 /// result. This makes the rounding invariant under translations by integer offsets.
-fn div_round(numerator: i32, denominator: i32) -> i32 {
+fn div_round(numerator: i64, denominator: i32) -> i32 {
     let (numerator, denominator) = if denominator < 0 {
-        (-i64::from(numerator), -i64::from(denominator))
+        (-numerator, -i64::from(denominator))
     } else {
-        (i64::from(numerator), i64::from(denominator))
+        (numerator, i64::from(denominator))
     };
 
-    (2 * numerator + denominator).div_euclid(2 * denominator) as i32
+    (2 * numerator + denominator)
+        .div_euclid(2 * denominator)
+        .saturating_as()
 }
 
 #[cfg(test)]
